@@ -428,7 +428,6 @@ fn run(ctx: &Ctx) -> ShardOut {
             for (ci, cfg) in cfgs.iter().enumerate() {
                 // quick: half of the (operator, window, configuration) product, chosen so that every
                 // operator, window and configuration occurs with every other one pairwise
-                let _ = (oi, wi, ci);
                 for len in 1..=maxlen {
                     for stream in streams(len, &gaps) {
                         idx += 1;
@@ -446,7 +445,10 @@ fn run(ctx: &Ctx) -> ShardOut {
                         // multi-thread schedules for short streams
                         let mt_len = if ctx.thorough() { 4 } else { 3 };
                         if let Some(single) = single {
-                            if len <= mt_len && sched::available() {
+                            // quick: length-3 streams under schedules for half of the (operator, window,
+                            // configuration) product (every pair of the three still occurs)
+                            let heavy_ok = ctx.thorough() || len < 3 || (oi + wi + ci) % 2 == 0;
+                            if len <= mt_len && heavy_ok && sched::available() {
                                 let bound = if ctx.thorough() { 3 } else { 2 };
                                 check_multi(&mut out, ctx, op, *w, cfg, &stream, &single, bound);
                             }
